@@ -51,6 +51,7 @@ func cmdVC(args []string) {
 	fn := fs.String("fn", "", "function key (pkgpath.Name)")
 	panicMode := fs.String("panic", "ignore", "obligation|ignore")
 	frame := fs.Bool("frame", false, "emit frame/store obligations")
+	lock := fs.Bool("lock", false, "lock-discipline obligations")
 	dump := fs.String("dump", "", "write the prelude to this file")
 	timeout := fs.Int("timeout", 10000, "ms per query")
 	verbose := fs.Bool("v", false, "verbose")
@@ -69,7 +70,7 @@ func cmdVC(args []string) {
 		fmt.Fprintln(os.Stderr, "no such function", key)
 		os.Exit(2)
 	}
-	tr := eng.translate(&Job{Fn: f, PanicMode: *panicMode, Frame: *frame})
+	tr := eng.translate(&Job{Fn: f, PanicMode: *panicMode, Frame: *frame, LockMode: *lock})
 	for _, u := range tr.unsupported {
 		fmt.Println("UNSUPPORTED:", u)
 	}
